@@ -134,7 +134,7 @@ def evaluate(sc, label, cases):
     inp, out = os.path.join(sc, label + "_in.ndjson"), os.path.join(sc, label + "_out.ndjson")
     nv.write_ndjson(inp, cases)
     nv.harness(BIN, ["eval", "--cases", inp, "--out", out])
-    rows = nv.read_ndjson_text(open(out).read())
+    rows = nv.read_ndjson_text(open(out, encoding="utf-8").read())
     if len(rows) != len(cases):
         raise nv.ToolError("harness returned %d results for %d cases" % (len(rows), len(cases)))
     return [r["r"] for r in rows]
@@ -609,7 +609,7 @@ def j_unit_lists(rep, sc, meta, tier, seed, drift):
     nv.write_ndjson(inp, [{"id": i, "exprs": ["1 " + u["name"]]} for i, u in enumerate(units)])
     nv.harness("nv-units", ["eval", "--cases", inp, "--out", out])
     groups, fac = {}, {}
-    for u, r in zip(units, nv.read_ndjson_text(open(out).read())):
+    for u, r in zip(units, nv.read_ndjson_text(open(out, encoding="utf-8").read())):
         o = r["results"][0]
         if o["outcome"] != "ok" or o["raw"].get("k") != "q":
             continue
